@@ -71,6 +71,7 @@ class Harness(cm.BaseB):
                 out.append({"kind": "tr", "dev": dev, "m": m})
         out.append({"kind": "rd"})
         out.append({"kind": "trseq"})
+        out.append({"kind": "trmax"})
         return out
 
     def cases(self, chunk):
@@ -98,6 +99,16 @@ class Harness(cm.BaseB):
                         v = k * min(m1, m2) + d
                         if v > 0:
                             yield {"kind": "trseq", "m1": m1, "m2": m2, "v": fhex(v)}
+        elif chunk["kind"] == "trmax":
+            # wl.max_volume is re-assigned on the live worklist between two transfers of the same volume
+            for dev in ("EvoWorklist", "FluentWorklist"):
+                for m1, m2 in ((950, 400), (400, 950), (50, 33.5), (33.5, 50), (7, 3), (1000, 950), (4.8, 5)):
+                    for k in (1, 2, 5):
+                        for d in (-1, 0, 0.25):
+                            v = k * max(m1, m2) + d
+                            if v > 0:
+                                for asplit in (True, False):
+                                    yield {"kind": "trmax", "dev": dev, "m1": m1, "m2": m2, "v": fhex(v), "auto_split": asplit}
         else:
             for m in (50, 950, 4.8, 1.0, 0.3):
                 for v in (0.1, 0.25, 1, 7.5, 10, 25, 50, 50.5, 100, 400, 950, 1200, 0.3, 4.8, 2.4):
@@ -147,11 +158,23 @@ class Harness(cm.BaseB):
         return f"pv:{min(len(res), 5)}steps", (f"pv{v!r}/{m}" if len(res) > 1 else None), V
 
     # -------------------------------------------------------------- end to end
-    def one_tr(self, case):
+    def one_trmax(self, case):
+        """the same worklist object, the same volume, max_volume assigned in between: the limit that counts is
+        the one the worklist has when the transfer is requested"""
+        wl = getattr(rt, case["dev"])(max_volume=case["m1"], auto_split=case["auto_split"])
+        o1, k1, V1 = self.one_tr({"kind": "tr", "dev": case["dev"], "v": case["v"], "m": case["m1"], "auto_split": case["auto_split"]}, wl=wl)
+        del wl[:]
+        wl.max_volume = case["m2"]
+        o2, k2, V2 = self.one_tr({"kind": "tr", "dev": case["dev"], "v": case["v"], "m": case["m2"], "auto_split": case["auto_split"]}, wl=wl)
+        V = V1 + [(c, f"after wl.max_volume = {case['m2']} (was {case['m1']}) on the live worklist: {d}") for c, d in V2]
+        return f"trmax:{o1}:{o2}", f"trmax{case}", V
+
+    def one_tr(self, case, wl=None):
         v, m = fx(case["v"]), case["m"]
         src = rt.Labware("S", 2, 2, min_volume=0, max_volume=1e9, initial_volumes=1e8)
         dst = rt.Labware("D", 2, 2, min_volume=0, max_volume=1e9)
-        wl = getattr(rt, case["dev"])(max_volume=m, auto_split=case["auto_split"])
+        if wl is None:
+            wl = getattr(rt, case["dev"])(max_volume=m, auto_split=case["auto_split"])
         V = []
         exc = None
         try:
@@ -218,8 +241,20 @@ class Harness(cm.BaseB):
             return f"rd:{name}", f"rd{case}", V
         if Fraction(v) > Fraction(m):
             V.append(("C06/oversized-not-refused", f"reagent_distribution(volume={v}) with max_volume={m} was accepted"))
+        # plate-wide protocols repeat the same distribution on the same worklist: every record is planned alike
+        first = wl[-1]
+        for rep in range(2):
+            try:
+                wl.reagent_distribution("S", 1, 8, "D", 1, 12, volume=v, multi_disp=md)
+            except Exception as e:
+                V.append(("C06/distribution-refused", f"repetition {rep + 2} of reagent_distribution(volume={v}, multi_disp={md}) with max_volume={m} raised {type(e).__name__}"))
+                break
+            if wl[-1] != first:
+                first = wl[-1]  # judged below
+                V.append(("C06/multi_disp", f"repetition {rep + 2} of the same distribution on the same worklist emitted {wl[-1]!r}, the first call {wl[0]!r}"))
+                break
         try:
-            p = gwl.parse(wl[-1])
+            p = gwl.parse(first)
             got = p["multi_disp"]
         except Exception as e:
             return "rd:unparsable", None, [("C06/unparsable", str(e))]
